@@ -40,6 +40,9 @@ def main():
     import logging
 
     logging.disable(logging.CRITICAL)  # Rally logs every retried fault with a traceback; nothing reads it here
+    from esrally.utils import console
+
+    console.init(quiet=True)
     prop = sys.argv[1]
     mod = importlib.import_module(HARNESS_OF[prop])
     from sim import batch
